@@ -101,7 +101,34 @@ OPT_KEYS = {
     9: 'SCOORD/SCOORD3D POLYLINE with [n] points instead of POINT',
     10: 'TCOORD referenced_sample_positions [..] (default [1])', 11: 'TCOORD referenced_time_offsets [..]',
     12: 'TCOORD referenced_date_time [seconds..]', 13: 'WAVEFORM referenced_waveform_channels [w, c, ..]',
+    # what a CODED ENTRY of the item carries beyond code value / scheme designator / meaning (see ENTRY_FEATS)
+    14: 'concept name: further attributes of the coded entry [features]',
+    15: 'CODE value: further attributes of the coded entry [features]',
+    16: 'NUM unit: further attributes of the coded entry [features]',
+    17: 'NUM qualifier: further attributes of the coded entry [features]',
 }
+K_NAME, K_CODE, K_UNIT, K_QUAL = 14, 15, 16, 17
+# attributes of the item itself that no constructor writes: set by hand on the item (never on the root, see claims)
+K_OBS_UID, K_OBS_DT = 20, 21
+OPT_KEYS[K_OBS_UID] = 'ObservationUID set on the item by hand [no]'
+OPT_KEYS[K_OBS_DT] = 'ObservationDateTime set on the item by hand [seconds]'
+# features of a coded entry (sorted list of numbers; [] = nothing but value / scheme / meaning).  The first
+# three are what the CodedConcept constructor can produce, the others are set on the CodedConcept by hand
+# (PS3.3 Table 8.8-1 'Code Sequence Macro': all optional).
+ENTRY_FEATS = {
+    2: 'LongCodeValue instead of CodeValue (value longer than 16 characters)',
+    3: 'URNCodeValue instead of CodeValue',
+    4: "MappingResource 'DCMR'", 5: "ContextGroupVersion '20200920'",
+    6: "ContextGroupExtensionFlag 'Y'", 7: "ContextGroupExtensionFlag 'N'",
+    8: "ContextGroupLocalVersion '20210101'", 9: 'ContextGroupExtensionCreatorUID',
+    # 11..19 CodingSchemeVersion 'v1'..'v9'
+    30: 'MappingResourceUID', 31: "MappingResourceName 'DICOM Content Mapping Resource'",
+    # 41..43 EquivalentCodeSequence with 1..3 items; 50000 + n: an equivalent code with code value n
+    # 10000 + cid: ContextIdentifier 'cid'; 20000 + cid: ContextUID '1.2.840.10008.6.1.<cid>'
+}
+LONG_PFX, URN_PFX = 'long-code-value--', 'urn:verif:code:'
+CIDS = [218, 7021, 7150, 7460, 7470, 100, 4, 7010]
+
 TCOORD, WAVEFORM = 13, 14
 RELS = [None, 'CONTAINS', 'HAS PROPERTIES', 'INFERRED FROM', 'SELECTED FROM',
         'HAS OBS CONTEXT', 'HAS ACQ CONTEXT', 'HAS CONCEPT MOD']   # generated trees use 0..4; reports the rest too
@@ -132,8 +159,88 @@ def opt_get(t, key):
     return None
 
 
+def feat_name(x):
+    if x in ENTRY_FEATS:
+        return ENTRY_FEATS[x]
+    if isinstance(x, int):
+        if 11 <= x <= 19:
+            return f"CodingSchemeVersion 'v{x - 10}'"
+        if 41 <= x <= 49:
+            return f'EquivalentCodeSequence with {x - 40} item(s)'
+        if 10000 <= x < 20000:
+            return f"ContextIdentifier '{x - 10000}'"
+        if 20000 <= x < 30000:
+            return f'ContextUID of CID {x - 20000}'
+        if x >= 50000:
+            return f'equivalent code {x - 50000}'
+    return str(x)
+
+
+def gen_entry(rng, p=1.0):
+    """features of one coded entry: [] with probability 1 - p, else a non-empty combination"""
+    if rng.random() >= p:
+        return []
+    f = []
+    r = rng.random()
+    if r < 0.12:
+        f.append(2)
+    elif r < 0.24:
+        f.append(3)
+    if rng.random() < 0.25:
+        f.append(10 + rng.randint(1, 9))
+    if rng.random() < 0.55:
+        # context group identification: identifier + mapping resource + version (all three or, rarely, a part)
+        cid = rng.choice(CIDS)
+        f += [10000 + cid, 4, 5] if rng.random() < 0.8 else [10000 + cid]
+        if rng.random() < 0.5:
+            f.append(20000 + cid)
+        if rng.random() < 0.3:
+            f += [6, 8, 9] if rng.random() < 0.6 else [7]
+    if rng.random() < 0.15:
+        f += rng.choice([[30], [31], [30, 31]])
+    if rng.random() < 0.25:
+        n = rng.randint(1, 2)
+        f += [40 + n] + [50000 + rng.randint(1, 99) for _ in range(n)]
+    if not f:
+        cid = rng.choice(CIDS)
+        f = [10000 + cid, 4, 5]
+    return sorted(f)
+
+
+def gen_entry_opts(rng, vt, o, root=False):
+    """coded entries of an item of value type vt (with the other options o) that carry more than the basics"""
+    e = []
+    x = gen_entry(rng, 0.25 if root else 0.15)
+    if x:
+        e.append([K_NAME, x])
+    if vt == 2:
+        x = gen_entry(rng, 0.45)
+        if x:
+            e.append([K_CODE, x])
+    elif vt == 3:
+        x = gen_entry(rng, 0.3)
+        if x:
+            e.append([K_UNIT, x])
+        if any(k == 3 for k, _ in o):
+            x = gen_entry(rng, 0.45)
+            if x:
+                e.append([K_QUAL, x])
+    return e
+
+
 def gen_opts(rng, vt, ref, root=False):
-    """optional constructor arguments for an item of value type vt"""
+    """optional constructor arguments for an item of value type vt, and what its coded entries carry"""
+    o = gen_opts0(rng, vt, ref, root)
+    o = o + gen_entry_opts(rng, vt, o, root)
+    if not root:
+        if rng.random() < 0.1:
+            o.append([K_OBS_UID, [rng.randint(1, 5)]])
+        if rng.random() < 0.1:
+            o.append([K_OBS_DT, [rng.randint(0, 59)]])
+    return o
+
+
+def gen_opts0(rng, vt, ref, root=False):
     o = []
     if vt == 0:
         r = rng.random()
@@ -342,11 +449,14 @@ EXTRA_KEYS = ('inst', 'dept', 'codes', 'requests')
 
 def gen_extras(rng):
     """the optional constructor arguments that take part in no guard (numbers -> strings in make_doc)"""
-    def some(lo, hi):
-        return None if rng.random() < 0.5 else [rng.randint(1, 9) for _ in range(rng.randint(lo, hi))]
+    def some(lo, hi, variants=1):
+        return None if rng.random() < 0.5 else [
+            rng.randint(1, 9) + 10 * (rng.randrange(variants) if rng.random() < 0.4 else 0)
+            for _ in range(rng.randint(lo, hi))]
     return {'inst': rng.randint(1, 9) if rng.random() < 0.5 else None,
             'dept': rng.randint(1, 9) if rng.random() < 0.4 else None,
-            'codes': some(0, 3), 'requests': some(0, 2)}
+            # a code n >= 10: code n % 10 as a coded entry that carries more than the basics (PROC_FEATS[n // 10])
+            'codes': some(0, 3, 6), 'requests': some(0, 2)}
 
 
 def gen_doc_verify(rng):
@@ -504,6 +614,7 @@ def gen_ko(rng, err=False):
         ev.insert(rng.randrange(len(ev) + 1), list(rng.choice(ev)))
     rng.shuffle(ev)
     c = {'kind': 'ko', 'refs': refs, 'evidence': ev, 'descr': rng.randint(1, 5) if rng.random() < 0.4 else None,
+         'title_x': gen_entry(rng, 0.4),      # what the coded entry given as document title carries (ENTRY_FEATS)
          'ts': 'explicit', 'queries': [r[0] for r in refs] + [55] + [r[0] for r in pool[:2]]}
     if err:
         c['kind'] = 'ko_err'
@@ -645,13 +756,16 @@ def gen_tid1500(rng):
                 'method': rng.random() < 0.3, 'derivation': rng.random() < 0.3, 'site': rng.random() < 0.3,
                 'tracking': rng.random() < 0.2,
                 'image': rng.randrange(len(pool)) if rng.random() < 0.4 else None,
-                'frames': rng.random() < 0.3}
+                'frames': rng.random() < 0.3,
+                # what the coded entries handed to the template classes carry beyond the basics (ENTRY_FEATS)
+                'name_x': gen_entry(rng, 0.2), 'unit_x': gen_entry(rng, 0.2), 'qual_x': gen_entry(rng, 0.3)}
     groups = []
     for _ in range(rng.randint(1, 3)):
         groups.append({'type': rng.choice(['plain', 'plain', 'planar']), 'meas': [meas() for _ in range(rng.randint(0, 3))],
                        'evals': rng.randint(0, 2), 'source': rng.randrange(len(pool)),
                        'finding_type': rng.random() < 0.4, 'session': rng.random() < 0.3,
-                       'pixel_origin': rng.choice([None, 'FRAME', 'VOLUME'])})
+                       'pixel_origin': rng.choice([None, 'FRAME', 'VOLUME']),
+                       'eval_x': gen_entry(rng, 0.25), 'finding_x': gen_entry(rng, 0.3)})
     if not any(m['qualifier'] is not None for g in groups for m in g['meas']) and rng.random() < 0.7:
         groups[0]['meas'].append(dict(meas(), qualifier=rng.randrange(len(M_QUAL))))
     ev = [list(r) for r in pool]
@@ -760,9 +874,136 @@ def gen_cases(rng, tier):
 # --------------------------------------------------------------------------
 # implementation side
 # --------------------------------------------------------------------------
-def _name(tag):
+def _name(tag, feats=()):
+    return make_entry(str(tag), SCHEME, f'm{tag}', feats)
+
+
+def make_entry(value, scheme, meaning, feats=()):
+    """a highdicom CodedConcept with the given features (ENTRY_FEATS): value form and scheme version through the
+    constructor, everything else set by hand (the constructor has no argument for it)"""
     from highdicom.sr import CodedConcept
-    return CodedConcept(str(tag), SCHEME, f'm{tag}')
+    from pydicom import Dataset
+    f = list(feats or ())
+    ver = [x - 10 for x in f if 11 <= x <= 19]
+    if 2 in f:
+        value = LONG_PFX + value
+    elif 3 in f:
+        value = URN_PFX + value
+    c = CodedConcept(value, scheme, meaning, f'v{ver[0]}' if ver else None)
+    eq = []
+    for x in f:
+        if x == 4:
+            c.MappingResource = 'DCMR'
+        elif x == 5:
+            c.ContextGroupVersion = '20200920'
+        elif x == 6:
+            c.ContextGroupExtensionFlag = 'Y'
+        elif x == 7:
+            c.ContextGroupExtensionFlag = 'N'
+        elif x == 8:
+            c.ContextGroupLocalVersion = '20210101'
+        elif x == 9:
+            c.ContextGroupExtensionCreatorUID = PFX + '10.1'
+        elif x == 30:
+            c.MappingResourceUID = '1.2.840.10008.8.1.1'
+        elif x == 31:
+            c.MappingResourceName = 'DICOM Content Mapping Resource'
+        elif 10000 <= x < 20000:
+            c.ContextIdentifier = str(x - 10000)
+        elif 20000 <= x < 30000:
+            c.ContextUID = f'1.2.840.10008.6.1.{x - 20000}'
+        elif x >= 50000:
+            e = Dataset()
+            e.CodeValue, e.CodingSchemeDesignator, e.CodeMeaning = str(x - 50000), '99EQ', f'eq{x - 50000}'
+            eq.append(e)
+    if eq or any(41 <= x <= 49 for x in f):
+        c.EquivalentCodeSequence = eq
+    return c
+
+
+def entry_value(ds):
+    """the code of a coded entry dataset whatever its form (the generated prefix of long / URN values removed)"""
+    for kw, pfx in (('CodeValue', ''), ('LongCodeValue', LONG_PFX), ('URNCodeValue', URN_PFX)):
+        if kw in ds:
+            v = str(ds[kw].value)
+            return v[len(pfx):] if pfx and v.startswith(pfx) else v
+    return None
+
+
+def entry_extras(ds):
+    """features (ENTRY_FEATS) of a coded entry dataset, read with plain pydicom: EVERY element other than
+    CodeValue / CodingSchemeDesignator / CodeMeaning counts; sorted numbers, then - as strings, so that they
+    stay visible - the elements that are not what make_entry writes"""
+    ints, raw = [], []
+
+    def put(ok, n, el):
+        if ok:
+            ints.append(n)
+        else:
+            raw.append(f'{el.keyword or el.tag}={el.value!r}')
+    for el in ds:
+        kw, v = el.keyword, el.value
+        if kw in ('CodeValue', 'CodingSchemeDesignator', 'CodeMeaning'):
+            continue
+        if kw == 'LongCodeValue':
+            ints.append(2)
+        elif kw == 'URNCodeValue':
+            ints.append(3)
+        elif kw == 'CodingSchemeVersion':
+            v = str(v)
+            put(len(v) == 2 and v[0] == 'v' and v[1] in '123456789', 10 + int(v[1]) if v[1:].isdigit() else 0, el)
+        elif kw == 'MappingResource':
+            put(v == 'DCMR', 4, el)
+        elif kw == 'ContextGroupVersion':
+            put(str(v) == '20200920', 5, el)
+        elif kw == 'ContextGroupExtensionFlag':
+            put(v in ('Y', 'N'), 6 if v == 'Y' else 7, el)
+        elif kw == 'ContextGroupLocalVersion':
+            put(str(v) == '20210101', 8, el)
+        elif kw == 'ContextGroupExtensionCreatorUID':
+            put(str(v) == PFX + '10.1', 9, el)
+        elif kw == 'MappingResourceUID':
+            put(str(v) == '1.2.840.10008.8.1.1', 30, el)
+        elif kw == 'MappingResourceName':
+            put(str(v) == 'DICOM Content Mapping Resource', 31, el)
+        elif kw == 'ContextIdentifier':
+            put(str(v).isdigit() and int(v) < 10000, 10000 + int(v) if str(v).isdigit() else 0, el)
+        elif kw == 'ContextUID':
+            n = _suffix(v, '1.2.840.10008.6.1.')
+            put(isinstance(n, int) and n < 10000, 20000 + n if isinstance(n, int) else 0, el)
+        elif kw == 'EquivalentCodeSequence':
+            ints.append(40 + len(v))
+            for e in v:
+                n = _num(e.get('CodeValue'))
+                ok = (isinstance(n, int) and 0 <= n and len(e) == 3 and e.get('CodingSchemeDesignator') == '99EQ'
+                      and e.get('CodeMeaning') == f'eq{n}')
+                if ok:
+                    ints.append(50000 + n)
+                else:
+                    raw.append('equivalent code ' + ', '.join(f'{x.keyword}={x.value!r}' for x in e))
+        else:
+            raw.append(f'{kw or el.tag}={v!r}')
+    return sorted(ints) + sorted(raw)
+
+
+def entries_from(ds):
+    """what the coded entries of one content item dataset carry beyond the basics (keys 14..17), plain pydicom"""
+    o = []
+
+    def add(key, seq):
+        if seq is not None and len(seq) > 0:
+            x = entry_extras(seq[0])
+            if len(seq) > 1:
+                x = x + [f'{len(seq)} items']
+            if x:
+                o.append([key, x])
+    add(K_NAME, ds.get('ConceptNameCodeSequence'))
+    add(K_CODE, ds.get('ConceptCodeSequence'))
+    mvs = ds.get('MeasuredValueSequence')
+    if mvs is not None and len(mvs) == 1:
+        add(K_UNIT, mvs[0].get('MeasurementUnitsCodeSequence'))
+    add(K_QUAL, ds.get('NumericValueQualifierCodeSequence'))
+    return o
 
 
 def build_item(t, root=False):
@@ -772,7 +1013,7 @@ def build_item(t, root=False):
     vt, tag, rel, ref, kids = t[:5]
     o = dict((k, v) for k, v in opts_of(t))
     r = RELS[rel]
-    n = _name(tag)
+    n = _name(tag, o.get(K_NAME))
 
     def points(dim):
         m = o[9][0] if 9 in o else 1
@@ -783,10 +1024,10 @@ def build_item(t, root=False):
     elif vt == 1:
         it = sr.TextContentItem(n, f'text {tag}', r)
     elif vt == 2:
-        it = sr.CodeContentItem(n, sr.CodedConcept(str(tag + 100), SCHEME, 'v'), r)
+        it = sr.CodeContentItem(n, make_entry(str(tag + 100), SCHEME, 'v', o.get(K_CODE)), r)
     elif vt == 3:
-        it = sr.NumContentItem(n, o[4][0] if 4 in o else tag + 0.5, sr.CodedConcept('mm', 'UCUM', 'mm'),
-                               qualifier=sr.CodedConcept(str(o[3][0]), 'DCM', f'q{o[3][0]}') if 3 in o else None,
+        it = sr.NumContentItem(n, o[4][0] if 4 in o else tag + 0.5, make_entry('mm', 'UCUM', 'mm', o.get(K_UNIT)),
+                               qualifier=make_entry(str(o[3][0]), 'DCM', f'q{o[3][0]}', o.get(K_QUAL)) if 3 in o else None,
                                relationship_type=r)
     elif vt == IMAGE:
         def one(v):
@@ -830,6 +1071,10 @@ def build_item(t, root=False):
                                     [(ch[i], ch[i + 1]) for i in range(0, len(ch), 2)], relationship_type=r)
     else:
         raise ValueError(vt)
+    if K_OBS_UID in o:
+        it.ObservationUID = PFX + f'6.{o[K_OBS_UID][0]}'
+    if K_OBS_DT in o:
+        it.ObservationDateTime = f'202001011000{o[K_OBS_DT][0]:02d}'
     if kids or tag % 2 == 0 or root:
         it.ContentSequence = sr.ContentSequence([build_item(k) for k in kids])
     return it
@@ -883,7 +1128,7 @@ def opts_from(ds):
         if cc != 'CONTINUOUS':
             o.append([2, [] if cc == 'SEPARATE' else [str(cc)]])
     if 'NumericValueQualifierCodeSequence' in ds:
-        o.append([3, [_num(x.get('CodeValue')) for x in ds.NumericValueQualifierCodeSequence]])
+        o.append([3, [_num(entry_value(x)) for x in ds.NumericValueQualifierCodeSequence]])
     if 'MeasuredValueSequence' in ds and len(ds.MeasuredValueSequence) == 1:
         mv = ds.MeasuredValueSequence[0]
         if 'FloatingPointValue' not in mv:
@@ -909,6 +1154,11 @@ def opts_from(ds):
         o.append([12, [_suffix(str(x)[:14], '202001011000') for x in _ints(ds.ReferencedDateTime)]])
     if 'ReferencedWaveformChannels' in rs:
         o.append([13, _ints(rs.ReferencedWaveformChannels)])
+    o = o + entries_from(ds)
+    if 'ObservationUID' in ds:
+        o.append([K_OBS_UID, [_suffix(ds.ObservationUID, PFX + '6.')]])
+    if 'ObservationDateTime' in ds:
+        o.append([K_OBS_DT, [_suffix(str(ds.ObservationDateTime)[:14], '202001011000')]])
     return o
 
 
@@ -926,7 +1176,7 @@ def tree_of(ds):
     if 'ReferencedSOPSequence' in ds:
         r = ds.ReferencedSOPSequence[0]
         ref = [num_of(r.ReferencedSOPInstanceUID), CLASSES.index(str(r.ReferencedSOPClassUID))]
-    return [VTS.index(ds.ValueType), _tag(ds.ConceptNameCodeSequence[0].CodeValue), RELS.index(rt), ref,
+    return [VTS.index(ds.ValueType), _tag(entry_value(ds.ConceptNameCodeSequence[0])), RELS.index(rt), ref,
             [tree_of(k) for k in ds.get('ContentSequence', [])], opts_from(ds)]
 
 
@@ -1095,7 +1345,8 @@ def make_doc(c):
     if c.get('dept') is not None:
         kw['institutional_department_name'] = f"Dept{c['dept']}"
     if c.get('codes') is not None:
-        kw['performed_procedure_codes'] = [sr.CodedConcept(str(900 + v), SCHEME, f'p{v}') for v in c['codes']]
+        kw['performed_procedure_codes'] = [make_entry(str(900 + v % 10), SCHEME, f'p{v % 10}', PROC_FEATS[v // 10])
+                                           for v in c['codes']]
     if c.get('requests') is not None:
         kw['requested_procedures'] = [requested_procedure(v) for v in c['requests']]
     cls = getattr(sr, SR_CLASSES[c['cls']])
@@ -1115,6 +1366,19 @@ def requested_procedure(v):
     return ds
 
 
+# a performed procedure code n >= 10 is code n % 10 given as a coded entry with the features PROC_FEATS[n // 10]
+PROC_FEATS = [[], [12], [4, 5, 17021, 27021], [2], [41, 50007], [3, 4, 6, 8, 9, 10100]]
+
+
+def proc_code(x):
+    """number of one item of PerformedProcedureCodeSequence (plain pydicom): 10 * variant + code"""
+    d = _suffix(entry_value(x), '90')
+    f = entry_extras(x)
+    if not isinstance(d, int) or f not in PROC_FEATS:
+        return f'{d} {f}'
+    return 10 * PROC_FEATS.index(f) + d
+
+
 def observe_extras(doc):
     """what the document records of the arguments that take part in no guard (plain pydicom)"""
     def opt(kw, prefix):
@@ -1122,22 +1386,23 @@ def observe_extras(doc):
     codes = doc.get('PerformedProcedureCodeSequence')
     reqs = doc.get('ReferencedRequestSequence')
     return [opt('InstitutionName', 'Inst'), opt('InstitutionalDepartmentName', 'Dept'),
-            None if codes is None else [_suffix(x.get('CodeValue'), '90') for x in codes],
+            None if codes is None else [proc_code(x) for x in codes],
             None if reqs is None else [_suffix(x.get('RequestedProcedureID'), 'RP') for x in reqs]]
 
 
 def observe_built(doc, snapshot, root, parsed=None):
     """observables of a freshly built document (or of `parsed`, obtained from it), plus the checks that
     the caller's tree was left untouched and that .content does not alias it"""
-    if root != snapshot:
-        return 'the content tree given to the constructor was modified by it'
+    if root != snapshot or not same(root, snapshot):
+        # (== between coded entries looks at value / scheme / version only: compare element by element too)
+        return f'the content tree given to the constructor was modified by it: {ds_diff(root, snapshot)}'
     obs = observe(doc if parsed is None else parsed, snapshot)
     # poke the caller's tree: the document's .content must not follow
     before = copy.deepcopy(doc.content[0])
     root.ContinuityOfContent = 'SEPARATE' if root.get('ContinuityOfContent') == 'CONTINUOUS' else 'CONTINUOUS'
     for k in root.get('ContentSequence', []):
         k.ObservationUID = PFX + '6.6'
-    if doc.content[0] != before:
+    if doc.content[0] != before or not same(doc.content[0], before):
         return '.content of the document aliases the tree given by the caller'
     if parsed is not None and not isinstance(obs, str):
         # which parser the root template selected: .content is a MeasurementReport or a plain ContentSequence
@@ -1286,14 +1551,14 @@ def build_report(c):
     from highdicom import sr
     from pydicom.sr.codedict import codes
 
-    def cc(t):
-        return sr.CodedConcept(*t)
+    def cc(t, feats=None):
+        return make_entry(*t, feats=feats)
     pool = c['pool']
 
     def measurement(m):
         kw = {}
         if m['qualifier'] is not None:
-            kw['qualifier'] = cc(M_QUAL[m['qualifier']])
+            kw['qualifier'] = cc(M_QUAL[m['qualifier']], m.get('qual_x'))
         if m['method']:
             kw['method'] = codes.SCT.AreaOfDefinedRegion
         if m['derivation']:
@@ -1306,16 +1571,19 @@ def build_report(c):
             u, cl = pool[m['image']][:2]
             kw['referenced_images'] = [sr.SourceImageForMeasurement(
                 CLASSES[cl], uid_of(u), referenced_frame_numbers=[1, 2] if m['frames'] else None)]
-        return sr.Measurement(name=cc(M_NAMES[m['name']]), value=m['value'], unit=codes.UCUM.Millimeter, **kw)
+        unit = make_entry('mm', 'UCUM', 'millimeter', m['unit_x']) if m.get('unit_x') else codes.UCUM.Millimeter
+        return sr.Measurement(name=cc(M_NAMES[m['name']], m.get('name_x')), value=m['value'], unit=unit, **kw)
     groups = []
     for i, g in enumerate(c['groups']):
         kw = dict(tracking_identifier=sr.TrackingIdentifier(uid=PFX + f'4.{i + 1}', identifier=f'g{i}'),
                   measurements=[measurement(m) for m in g['meas']] or None,
                   qualitative_evaluations=[sr.QualitativeEvaluation(
-                      name=sr.CodedConcept(str(200 + j), SCHEME, f'e{j}'), value=sr.CodedConcept(str(300 + j), SCHEME, 'v'))
+                      name=sr.CodedConcept(str(200 + j), SCHEME, f'e{j}'),
+                      value=make_entry(str(300 + j), SCHEME, 'v', g.get('eval_x')))
                       for j in range(g['evals'])] or None)
         if g['finding_type']:
-            kw['finding_type'] = codes.SCT.Neoplasm
+            kw['finding_type'] = (make_entry('108369006', 'SCT', 'Neoplasm', g['finding_x']) if g.get('finding_x')
+                                  else codes.SCT.Neoplasm)
         if g['session']:
             kw['session'] = f's{i}'
         u, cl = pool[g['source']][:2]
@@ -1358,9 +1626,11 @@ def num_items(ds):
         if k.ValueType == 'NUM':
             q = k.get('NumericValueQualifierCodeSequence')
             mv = k.MeasuredValueSequence[0]
-            out.append([str(k.ConceptNameCodeSequence[0].CodeValue), float(mv.NumericValue),
-                        str(mv.MeasurementUnitsCodeSequence[0].CodeValue),
-                        None if q is None else str(q[0].CodeValue)])
+            x = dict((a, b) for a, b in entries_from(k))
+            out.append([str(entry_value(k.ConceptNameCodeSequence[0])), float(mv.NumericValue),
+                        str(entry_value(mv.MeasurementUnitsCodeSequence[0])),
+                        None if q is None else str(entry_value(q[0])),
+                        [x.get(K_NAME, []), x.get(K_UNIT, []), x.get(K_QUAL, [])]])
     return out
 
 
@@ -1382,8 +1652,8 @@ def run_tid1500(c):
                             **({'transfer_syntax_uid': TS['explicit']} if c['cls'] == 2 else {})))
     if isinstance(doc, Err):
         return doc
-    if root != snapshot:
-        return 'the report given to the constructor was modified by it'
+    if root != snapshot or not same(root, snapshot):
+        return f'the report given to the constructor was modified by it: {ds_diff(root, snapshot)}'
     views = [['.content of the constructed document', doc.content[0]],
              ['top-level attributes of the constructed document', root_part(doc)]]
     bio = io.BytesIO()
@@ -1404,7 +1674,7 @@ def run_tid1500(c):
     for name, v in views:
         if not same(v, snapshot) or tree_shape(v) != tree_shape(snapshot):
             diffs.append(f'{name} differs from the report given: {ds_diff(v, snapshot)}')
-    groups = catch(lambda: [[str(m.name.value), None if m.qualifier is None else str(m.qualifier.value)]
+    groups = catch(lambda: [[entry_value(m.name), None if m.qualifier is None else entry_value(m.qualifier)]
                             for g in (back.content.get_image_measurement_groups() +
                                       back.content.get_planar_roi_measurement_groups())
                             for m in g.get_measurements()])
@@ -1418,7 +1688,7 @@ def run_tid1500(c):
 
 def tree_shape(ds):
     """value types, names, relationship types and optional attributes of a whole tree (plain pydicom)"""
-    return [str(ds.ValueType), str(ds.ConceptNameCodeSequence[0].CodeValue), str(ds.get('RelationshipType')),
+    return [str(ds.ValueType), str(entry_value(ds.ConceptNameCodeSequence[0])), str(ds.get('RelationshipType')),
             opts_from(ds), [tree_shape(k) for k in ds.get('ContentSequence', [])]]
 
 
@@ -1497,8 +1767,8 @@ def run_impl(c):
             return back
         if type(back).__name__ != SR_CLASSES[c['target']]:
             return 'from_dataset returned a ' + type(back).__name__
-        if cp and given != before:
-            return 'from_dataset(copy=True) changed the dataset it was given'
+        if cp and (given != before or not same(given, before)):
+            return f'from_dataset(copy=True) changed the dataset it was given: {ds_diff(given, before)}'
         if not cp and back is not given:
             return 'from_dataset(copy=False) did not convert the dataset it was given in place'
         return observe_built(doc, snap, root, parsed=back)
@@ -1549,7 +1819,7 @@ def run_impl(c):
                     del d.Columns
                 objs.append(d)
             content = ko.KeyObjectSelection(
-                document_title=sr.CodedConcept('113000', 'DCM', 'Of Interest'), referenced_objects=objs,
+                document_title=make_entry('113000', 'DCM', 'Of Interest', c.get('title_x')), referenced_objects=objs,
                 description=None if c['descr'] is None else f"d{c['descr']}")
             doc = ko.KeyObjectSelectionDocument(
                 evidence=[evidence_ds(r) for r in c['evidence']], content=content,
@@ -1593,7 +1863,7 @@ def run_impl(c):
             back = catch(lambda: ko.KeyObjectSelectionDocument.from_dataset(given))
             if isinstance(back, Err):
                 return back
-            if given != before:
+            if given != before or not same(given, before):
                 return 'KeyObjectSelectionDocument.from_dataset changed the dataset it was given'
             if type(back).__name__ != 'KeyObjectSelectionDocument' or type(back.content).__name__ != 'KeyObjectSelection':
                 return f'parsed object is a {type(back).__name__} with a {type(back.content).__name__}'
@@ -1733,16 +2003,17 @@ def coq_term(c):
     if k == 'tid1500':
         return None
     refs = '[' + '; '.join(f'({zlit(u)}, {zlit(cl)}, {coq_b(img)})' for u, cl, img in c['refs']) + ']'
+    tx = coq_zl(c.get('title_x') or [])
     if k in ('ko', 'ko_err'):
         qs = '[' + '; '.join(zlit(u) for u in c['queries']) + ']'
-        return (f"(run_ko {coq_evd(c['evidence'])} {coq_b(c['ts'] != 'jpeg')} 113000 {coq_optz(c['descr'])} "
+        return (f"(run_ko {coq_evd(c['evidence'])} {coq_b(c['ts'] != 'jpeg')} 113000 {tx} {coq_optz(c['descr'])} "
                 f"{refs} {qs})")
     if k == 'ko_srread':
-        return f"(run_ko_srread {coq_evd(c['evidence'])} 113000 {refs})"
+        return f"(run_ko_srread {coq_evd(c['evidence'])} 113000 {tx} {refs})"
     if k == 'ko_parse':
         qs = '[' + '; '.join(zlit(u) for u in c['queries']) + ']'
         vf = 'None' if c['vf'] is None else f"(Some {COQ_VT[c['vf']]})"
-        return (f"(run_ko_parse {coq_evd(c['evidence'])} 113000 {coq_optz(c['descr'])} {refs} {zlit(c['tamper'])} "
+        return (f"(run_ko_parse {coq_evd(c['evidence'])} 113000 {tx} {coq_optz(c['descr'])} {refs} {zlit(c['tamper'])} "
                 f"{qs} {vf} {coq_optz(c['cf'])})")
     raise ValueError(k)
 
@@ -1798,6 +2069,10 @@ def tree_diff(got, want, path='root'):
                 keys = sorted({k for k, _ in got[5]} ^ {k for k, _ in want[5]} |
                               {k for k, v in got[5] if [k, v] not in want[5] and k in dict((a, b) for a, b in want[5])})
                 extra = ' (' + '; '.join(OPT_KEYS.get(k, str(k)) for k in keys) + ')'
+                lost = [feat_name(x) for k, v in want[5] if k >= K_NAME
+                        for x in v if x not in (dict((a, b) for a, b in got[5]).get(k) or [])]
+                if lost:
+                    extra += ' - coded entry attributes given but not exposed: ' + ', '.join(lost)
             return f'{names[i]} of {path} [{VTS[want[0]]}] is {got[i]}, given {want[i]}{extra}'
     if len(got[4]) != len(want[4]):
         return f'{path} has {len(got[4])} children, given {len(want[4])}'
@@ -2054,6 +2329,12 @@ def oracle_seg_real(c, out):
     return None
 
 
+def meas_feats(m):
+    """[name, unit, qualifier] features of the coded entries a measurement of a report case is built from"""
+    return [list(m.get('name_x') or []), list(m.get('unit_x') or []),
+            list(m.get('qual_x') or []) if m['qualifier'] is not None else []]
+
+
 def oracle_tid1500(c, out):
     if isinstance(out, str):
         return out
@@ -2062,7 +2343,7 @@ def oracle_tid1500(c, out):
     diffs, kinds, nums_given, nums_views, refs, cur, oth, pcur, poth, groups = out
     # the report handed over is what the case describes (checked against the case, not against highdicom)
     want_nums = [[M_NAMES[m['name']][0], float(m['value']), 'mm',
-                  None if m['qualifier'] is None else M_QUAL[m['qualifier']][0]]
+                  None if m['qualifier'] is None else M_QUAL[m['qualifier']][0], meas_feats(m)]
                  for g in c['groups'] for m in g['meas']]
     if sorted(map(str, nums_given)) != sorted(map(str, want_nums)):
         return f'harness: report built {nums_given}, case describes {want_nums}'
@@ -2070,7 +2351,7 @@ def oracle_tid1500(c, out):
         return diffs[0]
     for v in nums_views:
         if v != nums_given:
-            return f'numeric items (name, value, unit, qualifier) {v}, given {nums_given}'
+            return f'numeric items (name, value, unit, qualifier, what the three coded entries carry) {v}, given {nums_given}'
     if kinds != ['ContentSequence', 'MeasurementReport', SR_CLASSES[c['cls']]] and \
             kinds != ['MeasurementReport', 'MeasurementReport', SR_CLASSES[c['cls']]]:
         return f'.content / parsed .content / parsed document have types {kinds}'
@@ -2113,14 +2394,25 @@ def oracle_report_doc(c, out):
     tree = obs[1]
     if not isinstance(tree, str):
         # what the case describes must be in the tree that was read back (names / qualifiers of the measurements)
-        nums = sorted([_tag(M_NAMES[m['name']][0]), -1 if m['qualifier'] is None else int(M_QUAL[m['qualifier']][0])]
-                      for g in rp['groups'] for m in g['meas'])
-        got = sorted([x[1], (opt_get(x, 3) or [-1])[0]] for x, _ in walk(tree) if x[0] == 3)
+        nums = sorted([_tag(M_NAMES[m['name']][0]), -1 if m['qualifier'] is None else int(M_QUAL[m['qualifier']][0]),
+                       meas_feats(m)] for g in rp['groups'] for m in g['meas'])
+        got = sorted([x[1], (opt_get(x, 3) or [-1])[0], [opt_get(x, k) or [] for k in (K_NAME, K_UNIT, K_QUAL)]]
+                     for x, _ in walk(tree) if x[0] == 3)
         if got != nums:
-            return f'numeric items (name, qualifier) of the parsed tree {got}, the case describes {nums}'
+            return (f'numeric items (name, qualifier, what the name / unit / qualifier entries carry) of the parsed '
+                    f'tree {got}, the case describes {nums}')
+        evs = sorted(list(g.get('eval_x') or []) for g in rp['groups'] for _ in range(g['evals']))
+        got = sorted(opt_get(x, K_CODE) or [] for x, _ in walk(tree) if x[0] == 2 and 200 <= x[1] < 300)
+        if got != evs:
+            return f'qualitative evaluations of the parsed tree carry coded-entry attributes {got}, the case describes {evs}'
         if {x[3][0] for x, _ in walk(tree) if x[0] in (IMAGE, COMPOSITE)} != ref:
             return 'instances referenced by the parsed tree differ from the ones the case describes'
     return check_doc_obs(c, obs, ref=ref)
+
+
+def ko_root_opts(c):
+    """template 2010 and whatever the coded entry given as document title carries"""
+    return [[1, [2010]]] + ([[K_NAME, list(c['title_x'])]] if c.get('title_x') else [])
 
 
 def oracle_ko_parse(c, out):
@@ -2135,8 +2427,8 @@ def oracle_ko_parse(c, out):
     first = _first(c['evidence'])
     want_kids = ([[1, 113012, 1, None, [], []]] if c['descr'] is not None else []) + [
         [IMAGE if img else COMPOSITE, 260753009, 1, [u, cl], [], []] for u, cl, img in c['refs']]
-    if tree != [0, 113000, 0, None, want_kids, [[1, [2010]]]]:
-        return f'parsed key object content {tree}'
+    if tree != [0, 113000, 0, None, want_kids, ko_root_opts(c)]:
+        return f'parsed key object content {tree}, expected title entry {c.get("title_x") or []} and items {want_kids}'
     m = check_partition(c['evidence'], ref, cur, oth, record=False, what='parsed KO ')
     if m:
         return m
@@ -2228,8 +2520,8 @@ def oracle(c, out):
             return tree
         want_kids = ([[1, 113012, 1, None, [], []]] if c['descr'] is not None else []) + [
             [IMAGE if img else COMPOSITE, 260753009, 1, [u, cl], [], []] for u, cl, img in c['refs']]
-        if tree != [0, 113000, 0, None, want_kids, [[1, [2010]]]]:
-            return f'key object content {tree}'
+        if tree != [0, 113000, 0, None, want_kids, ko_root_opts(c)]:
+            return f'key object content {tree}, expected title entry {c.get("title_x") or []} and items {want_kids}'
         m = check_partition(c['evidence'], ref, cur, oth, record=False, what='KO ')
         if m:
             return m
@@ -2282,7 +2574,9 @@ def shrink(c):
                 for v in variants(t[4][i]):
                     yield [t[0], t[1], t[2], t[3], t[4][:i] + [v] + t[4][i + 1:]] + rest
             for j in range(len(opts_of(t))):
-                yield t[:5] + [t[5][:j] + t[5][j + 1:]]
+                # (a qualifier entry needs the qualifier: keep the case one that build_item realises in full)
+                o = [kv for kv in t[5][:j] + t[5][j + 1:] if kv[0] != K_QUAL or t[5][j][0] != 3]
+                yield t[:5] + [o]
         for v in variants(c['tree']):
             yield dict(c, tree=v)
     if 'seg' in c:
@@ -2299,7 +2593,8 @@ def shrink(c):
             for i in range(len(c[key])):
                 yield dict(c, **{key: c[key][:i] + c[key][i + 1:]})
     for key, v in (('previous', None), ('verified', False), ('as_seq', False), ('record', True), ('descr', None),
-                   ('inst', None), ('dept', None), ('codes', None), ('requests', None), ('parse', False)):
+                   ('inst', None), ('dept', None), ('codes', None), ('requests', None), ('parse', False),
+                   ('title_x', [])):
         if key in c and c[key] != v:
             yield dict(c, **{key: v})
 
